@@ -230,7 +230,13 @@ func Run(t *testing.T, h *socks5.Handler, input []byte, plan DialPlan, udp, icmp
 			}
 		}()
 		// everything is blocked: the handler has returned, or waits for more
-		// input, or relays
+		// input, or relays - or sits in one of handleConnect's 100 ms polling
+		// reads of its disconnect monitor (a race between the monitor
+		// re-arming its read deadline and the dial returning). Let one
+		// virtual second pass so that such a poll expires the way it would
+		// in real time, then wait again. The client closes only after that.
+		synctest.Wait()
+		time.Sleep(time.Second)
 		synctest.Wait()
 		c.Close() // end of the client's stream
 		synctest.Wait()
